@@ -344,12 +344,9 @@ Qed.
 
 (* the instance used by the correspondence (float values not recomputed), with the reader's identifier rule *)
 Theorem parse_file_serialise_delim (schema : list Z) (rows : list row) :
-  Forall (row_ok no_float_value schema) rows -> id_cols_ok schema rows = true ->
+  Forall (row_ok no_float_value schema) rows ->
   parse_file Delim schema (serialise Delim rows) = Some rows.
-Proof.
-  intros Hrows Hid. unfold parse_file, parse_raw. rewrite parse_serialise_delim_rows by assumption.
-  rewrite Hid, orb_true_r. reflexivity.
-Qed.
+Proof. intros Hrows. unfold parse_file, parse_raw. apply parse_serialise_delim_rows, Hrows. Qed.
 
 (* float tables under an explicit printer: if the reader inverts the printer (round-trip hypothesis) and the
    printer emits no TAB / LF, a table whose float cells carry the printer's text is read back unchanged *)
